@@ -71,6 +71,7 @@ type script struct {
 	variant int
 	delay   time.Duration
 	slow    bool
+	linger  time.Duration // how long the node takes to notice that its context was cancelled
 }
 
 func (s script) String() string {
@@ -83,11 +84,14 @@ func (s script) String() string {
 func drawScript() script {
 	var s script
 	s.kind = kindTable[verifrt.Intn("f", len(kindTable))]
+	if verifrt.Intn("f", 5) == 4 {
+		s.linger = time.Duration(1+verifrt.Intn("f", 9)) * time.Millisecond // a node that is slow to react to cancellation
+	}
 	if s.kind == kHang {
 		return s
 	}
 	if s.kind != kSuccess {
-		s.variant = verifrt.Intn("f", 4)
+		s.variant = verifrt.Intn("f", 6)
 	}
 	switch d := verifrt.Intn("n", 6); {
 	case d < 4:
@@ -155,7 +159,11 @@ func mkErr(kind outKind, variant, call, node int) (err, core error) {
 			return own("node syncing, head slot behind", nil)
 		}
 	case kGateway:
-		return api([]int{http.StatusBadGateway, http.StatusServiceUnavailable, http.StatusGatewayTimeout}[variant%3], "upstream unavailable")
+		e, core := api([]int{http.StatusBadGateway, http.StatusServiceUnavailable, http.StatusGatewayTimeout}[variant%3], "upstream unavailable")
+		if variant >= 3 { // the shape go-eth2-client produces for several endpoints: the API error joined with context
+			return errors.Join(errors.New("failed to request "+tag), e), core
+		}
+		return e, core
 	case kConnRefused:
 		switch variant % 3 {
 		case 0: // the shape net/http produces for a refused connection
@@ -206,10 +214,11 @@ const (
 )
 
 type inv struct {
-	node   int
-	startT time.Duration
-	ended  bool
-	endT   time.Duration
+	node      int
+	lingering bool // its context was cancelled and it is taking its time to return
+	startT    time.Duration
+	ended     bool
+	endT      time.Duration
 	how    how
 	core   error
 	value  any
@@ -326,6 +335,13 @@ func (s *stub) serve(ctx context.Context, mkValue func(call *callRec) any) (any,
 		verifrt.Go(func() { verifrt.Sleep(d); close(dc) })
 	}
 	k := wait3(done, ctx.Done(), h.run.Done())
+	if k == 1 && sc.linger > 0 {
+		h.mu.Lock()
+		iv.lingering = true
+		h.mu.Unlock()
+		verifrt.Fault("slow-to-cancel")
+		verifrt.Sleep(sc.linger)
+	}
 
 	var (
 		val any
@@ -567,7 +583,7 @@ func (h *harn) caller(c *kernel.Ctx, multi eth2wrap.Client, call *callRec) {
 	verifrt.Sleep(time.Microsecond)
 	h.mu.Lock()
 	for i, iv := range call.invs {
-		if iv != nil && !iv.ended && call.scripts[i].kind == kHang {
+		if iv != nil && !iv.ended && !iv.lingering && call.scripts[i].kind == kHang {
 			c.Violate(prop, "f-no-leak", "hung-node-call-not-cancelled-after-return",
 				"call%d (%s) returned at %v but the call to hung node %d (invoked at %v) still had a live context at quiescence in the same instant: %s", call.id, methodName[call.m], retT, i, iv.startT, describe(call, h.nP))
 		}
@@ -727,8 +743,33 @@ func (h *harn) judge(c *kernel.Ctx, call *callRec, res result, retT time.Duratio
 	}
 
 	// (e) cancellation
-	if cancelFired && retT != call.cancelT {
-		c.Violate(prop, "e-cancel", "returned-later-than-caller-cancellation", "call%d (%s): caller context ended at %v (%s) but the call returned %s at %v: %s", call.id, mn, call.cancelT, cancelName[call.cmode], rName[rk], retT, desc)
+	if cancelFired {
+		// The call returns promptly: at the cancellation instant if some node call in flight reacts to
+		// the cancellation at once (or none is in flight), else no later than the first in-flight node
+		// call's return - it must not wait for the slower ones.
+		bound := call.cancelT
+		first := time.Duration(-1)
+		for i, iv := range call.invs {
+			if iv == nil || (iv.ended && iv.endT < call.cancelT) {
+				continue
+			}
+			if iv.ended && iv.how != howCtx && iv.endT == call.cancelT {
+				continue // completed in the cancellation instant itself: possibly handled before the cancellation
+			}
+			end := call.cancelT + call.scripts[i].linger
+			if iv.ended && iv.how != howCtx && iv.endT <= end {
+				end = iv.endT // it completed on its own at or after the cancellation instant
+			}
+			if first < 0 || end < first {
+				first = end
+			}
+		}
+		if first > bound {
+			bound = first
+		}
+		if retT > bound {
+			c.Violate(prop, "e-cancel", "returned-later-than-caller-cancellation", "call%d (%s): caller context ended at %v (%s) and the first in-flight node call returned by %v, but the call returned %s only at %v: %s", call.id, mn, call.cancelT, cancelName[call.cmode], bound, rName[rk], retT, desc)
+		}
 	}
 	if rk == rCtxErr && !cancelFired {
 		c.Violate(prop, "d-fail-only-if-all-fail", "context-error-without-caller-cancellation", "call%d (%s) failed with %q at %v although the caller's context was live: %s", call.id, mn, res.err, retT, desc)
